@@ -35,7 +35,9 @@ Captures ==
   { <<sc, f1, f2>> \in Scopes \X Universe \X Universe :
       f1 # f2 /\ \E t1, t2 \in sc : Derive(t1, f1) = Derive(t2, f2) }
 Kinds == {"struct", "enum"}
-TraitSets == {"cmp8", "copyderefinto"}
+\* "intoabs": Into targets written as absolute paths (::core::primitive::u16), inside a module that has local modules
+\* called core / std / alloc
+TraitSets == {"cmp8", "copyderefinto", "intoabs"}
 
 \* which identifiers can stand at which position (lexical class only)
 IsLower(id) == id \in { Facts.lower[i] : i \in DOMAIN Facts.lower }
